@@ -1418,7 +1418,7 @@ async fn execute_command<T: Into<String>>(
 
     for assignment in assignments {
         // Ensure it's tagged as exported and created in the command scope.
-        apply_assignment(
+        let result = apply_assignment(
             assignment,
             guard.shell(),
             &params,
@@ -1426,7 +1426,17 @@ async fn execute_command<T: Into<String>>(
             Some(EnvironmentScope::Command),
             EnvironmentScope::Command,
         )
-        .await?;
+        .await;
+
+        match result {
+            // A temporary assignment to a readonly variable is reported and skipped;
+            // the command still runs, seeing the variable's real value.
+            Err(err) if matches!(err.kind(), error::ErrorKind::ReadonlyVariable) => {
+                let mut stderr = params.stderr(guard.shell());
+                let _ = guard.shell().display_error(&mut stderr, &err);
+            }
+            result => result?,
+        }
     }
 
     if guard.shell().options().print_commands_and_arguments {
@@ -1672,7 +1682,16 @@ async fn apply_assignment(
         }
     }
 
-    // If we fell down here, then we need to add it.
+    // If we fell down here, then we need to add it. A new binding must not hide a
+    // readonly variable of the same name that lives in another scope.
+    if shell
+        .env()
+        .get(variable_name.as_str())
+        .is_some_and(|(_, existing_value)| existing_value.is_readonly())
+    {
+        return Err(error::ErrorKind::ReadonlyVariable.into());
+    }
+
     let new_value = if let Some(array_index) = array_index {
         match new_value {
             ShellValueLiteral::Scalar(s) => {
